@@ -31,11 +31,11 @@ func init() {
 		MinDistinct: map[string]int{"quick": 150, "thorough": 5000},
 		MinCounters: map[string]map[string]int64{
 			"quick":    {"ops_issued": 15000, "ops_returned": 15000, "late_calls_checked": 1500, "leak_checks_passed": 300, "blocked_callback_reports": 2000, "pending_calls_at_shutdown_checked": 20, "unregister_calls_pending_at_shutdown": 15, "blank_done_after_failed_setsource_checked": 15},
-			"thorough": {"ops_issued": 1000000, "late_calls_checked": 100000, "pending_calls_at_shutdown_checked": 1000, "blank_done_after_failed_setsource_checked": 1000},
+			"thorough": {"ops_issued": 600000, "late_calls_checked": 60000, "pending_calls_at_shutdown_checked": 500, "blank_done_after_failed_setsource_checked": 500},
 		},
 		Plan: func(tier string) fw.Plan {
 			if tier == "thorough" {
-				return fw.Plan{Shards: 16, CasesPerShard: 4000, TimeoutSec: 3300}
+				return fw.Plan{Shards: 16, CasesPerShard: 2400, TimeoutSec: 3300}
 			}
 			return fw.Plan{Shards: 16, CasesPerShard: 60, TimeoutSec: 900}
 		},
@@ -133,7 +133,7 @@ func c08EventsPollers(w *fw.Worker, i int, r *fw.Rand) {
 			}
 		}(rr)
 	}
-	per := w.Pick(2500, 40000)
+	per := w.Pick(2500, 10000)
 	var rwg sync.WaitGroup
 	var halt atomic.Bool
 	// The reports carry no deadline of their own: whether one is stuck is decided from goroutine states taken WHILE it is
